@@ -14,7 +14,8 @@ from ..core import Sub, Violation
 RULE = (
     "Hypothesis generates 1-3 keys (int/str/float/bool/datetime/categorical, nulls allowed) with SPARSE label "
     "combinations (n <= 24 rows over up to 4x4x3 labels), a float or int value column with nulls, a mask, an "
-    "aggregation in {sum,count,size,min,max,mean} and margins in {True, every non-empty subset of levels}; for "
+    "aggregation in {sum,count,size,min,max,mean}, optionally a second value column with a different null pattern, and "
+    "margins in {True, every non-empty subset of levels}; for "
     "crosstab 1-2 row keys and 1-2 column keys, margins in {False, True, 'row', 'column'} and an aggfunc.  "
     "Non-trivial = >= 2 keys with a missing label combination and groups of unequal count (so that a mean of means "
     "differs from the true mean).  Distinct = case hash."
@@ -50,12 +51,16 @@ def margin_case(draw, variant):
     if vspec["dtype"] == "int64":
         vspec["vals"] = [v % 2001 - 1000 for v in vspec["vals"]]
     agg = draw(st.sampled_from(AGGS))
+    vals = [vspec]
+    if agg != "size" and draw(st.sampled_from([False, False, True])):
+        v2 = draw(S.value_column(n, dtypes=("float64",), regime="exact", null_modes=["some", "heavy"]))
+        vals = [dict(vspec, name="a"), dict(v2, name="b")]
     if nk == 1:
         margins = True
     else:
         subsets = [list(c) for r in range(1, nk + 1) for c in itertools.combinations(range(nk), r)]
         margins = draw(st.sampled_from([True] + subsets))
-    return {"n": n, "keys": keys, "vals": [vspec], "agg": agg, "margins": margins, "sort": True,
+    return {"n": n, "keys": keys, "vals": vals, "agg": agg, "margins": margins, "sort": True,
             "mask": draw(S.mask_spec(n, kinds=("none", "none", "bool", "slice")))}
 
 
@@ -99,6 +104,8 @@ def check_value(agg, vspec, exp, got, gvals, what):
 
 
 def margin_check(case, ctx):
+    if len(case["vals"]) > 1:
+        return margin_check_multi(case, ctx)
     n, agg = case["n"], case["agg"]
     nk = len(case["keys"])
     keys = [data.render_key(k, "np") if k.get("name") is None else data.render_key(k, "series") for k in case["keys"]]
@@ -140,6 +147,32 @@ def margin_check(case, ctx):
         if lab not in got or not (got[lab] == v or (got[lab] is None and v is None) or
                                   (isinstance(v, float) and got[lab] is not None and abs(got[lab] - v) <= 1e-12 * max(1, abs(v)))):
             raise Violation(f"ordinary-row-changed:{agg}", f"label {lab}: {v!r} without margins, {got.get(lab)!r} with")
+
+
+def margin_check_multi(case, ctx):
+    """Several value columns: every column of the result must equal the single-column call (incl. its margins)."""
+    n, agg = case["n"], case["agg"]
+    nk = len(case["keys"])
+    keys = [data.render_key(k, "np") for k in case["keys"]]
+    mask = data.render_mask(case["mask"], n)
+    gb = GroupBy(keys[0] if nk == 1 else keys)
+    m = case["margins"]
+    values = {v["name"]: data.render_val(v, "np") for v in case["vals"]}
+    res = getattr(gb, agg)(values, mask=mask, margins=m)
+    ctx.seen("margins", case, nk >= 2, [f"agg:{agg}", f"nkeys:{nk}", "margins:multi-column", "mask:" + (case["mask"]["kind"] if case["mask"] else "none")])
+    if not isinstance(res, pd.DataFrame) or list(res.columns) != list(values):
+        raise Violation("shape:multi", f"expected a DataFrame with columns {list(values)}, got {type(res).__name__} {getattr(res, 'columns', '')}")
+    levels = list(range(nk)) if m is True else list(m)
+    for vspec in case["vals"]:
+        single = dict(case, vals=[vspec])
+        table, labels, pos, vals = expected_table(single, levels)
+        col = res[vspec["name"]]
+        got = dict(zip(data.index_labels(col.index), data.series_values(col)))
+        for lab, rows in table.items():
+            if lab not in got:
+                raise Violation(f"labels:{agg}", f"column {vspec['name']}: label {lab} missing")
+            exp = agg_value(agg, vals, rows)
+            check_value(agg, vspec, exp, got[lab], [vals[p] for p in rows], f"column {vspec['name']} label {lab}")
 
 
 # ---------------------------------------------------------------------------
